@@ -151,8 +151,8 @@ impl Property for C18 {
     fn params(&self, tier: Tier) -> Params {
         Params {
             cases: match tier {
-                Tier::Quick => 240,
-                Tier::Thorough => 5_000,
+                Tier::Quick => 1_600,
+                Tier::Thorough => 20_000,
             },
             max_bytes: 256,
             timeout: Duration::from_secs(120),
